@@ -114,6 +114,8 @@ pub struct ActorSpec {
     pub start: HookScript,
     pub run: Vec<RunStep>,
     pub stop: HookScript,
+    /// on_run returns Err on the first poll of an invocation once this many messages have been handled
+    pub run_err_when_handled: Option<u64>,
     /// does the peers table hold a strong reference to this actor until the epilogue?
     pub in_peers: bool,
 }
